@@ -61,7 +61,8 @@ ALLOWED_SUB = {
 
 PY_NAMES = ["a", "b", "c", "ab", "a_b", "class_", "x1", "value"]
 SOURCES = ["class", "a-b", "$id", "1x", "not", "d", "A", ""]
-CLASS_NAMES = ["Foo", "Bar", "Baz", "Qux", "Quux", "Corge", "Grault", "Garply"]
+CLASS_NAMES = ["Foo", "Bar", "Baz", "Qux", "Quux", "Corge", "Grault", "Garply", "Waldo", "Fred", "Plugh", "Xyzzy",
+               "Thud", "Wibble", "Wobble", "Flob"]
 
 
 # ------------------------------------------------------------------ build
@@ -439,6 +440,12 @@ def _node(draw, cfg, depth, gen, kinds=None):
         want_props = kind == "Object" or (kind == "Element" and draw(st.integers(0, 2)) == 0)
         if want_props:
             node["props"] = draw(_props_strategy(cfg, depth, gen))
+            if "required" in node["kw"] and node["props"] and draw(st.booleans()):
+                # explicit lists that mention declared properties - by JSON name and by Python name
+                p0 = draw(st.sampled_from(node["props"]))
+                extra = draw(st.sampled_from([p0["name"], p0["source"] if p0.get("source") is not None else p0["name"]]))
+                if extra not in node["kw"]["required"]:
+                    node["kw"]["required"] = node["kw"]["required"] + [extra]
             if node.get("base"):
                 # effective JSON names must stay unique in the merged class (ambiguous otherwise)
                 idx_done = index(gen.done)
